@@ -5,7 +5,7 @@ ID = 'C09'
 LEVEL = 'exploration'
 RULE = ('ALL non-empty predicates over 1-3 two-valued variables and over the '
         'grids 0..3, -2..1, -4..-1, 0..7, 0..3x0..1, -2..1x0..1, -4..-1x0..1 '
-        '; plus, beyond the exhaustive scope, the cyclic-core instances and every fourth of 1600 (thorough 24000) seed-indexed 32-point predicates over five 0..1 variables and 400 (6000) over 0..3x0..3x0..1, each also with the auxiliary parameters pre-declared in 2 (3) other orders (thorough: all 65535 over 4 two-valued variables, over 0..3x-2..1 and over -4..-1x-2..1; '
+        '; plus, beyond the exhaustive scope, a committed corpus of 396 32-point instances (with parameter orders) chosen so that every shape of the branch-and-bound search of length <= 50 observed in a sweep of 24000 instances occurs, and the cyclic-core instances and every fourth of 1600 (thorough 24000) seed-indexed 32-point predicates over five 0..1 variables and 400 (6000) over 0..3x0..3x0..1, each also with the auxiliary parameters pre-declared in 2 (3) other orders (thorough: all 65535 over 4 two-valued variables, over 0..3x-2..1 and over -4..-1x-2..1; '
         'quick: 2048 of each, spread with stride 32 from a seed-selected offset, plus EVERY predicate of these three whose covering problem has a non-empty cyclic core) x care in {TRUE, type '
         'hints, f|g, a care set missing a point of f}; cover.minimize read '
         'out to a set of boxes and compared with brute force: only maximal '
@@ -65,7 +65,29 @@ def shards(tier, seed, spread=BLOCK, cyclic_grids=None, small=None,
             out.append(dict(grid=g, large=[i, i + 16, seed],
                             backend='cudd', care='TRUE+hints',
                             orders='all' if tier == 'thorough' else 'two'))
+    # branch-and-bound corpus: 32-point instances selected (on the pinned
+    # tree) so that every observed SHAPE of the search - the sequence of
+    # traverse / branch / left / right / terminal / prune / prune-both
+    # events that cover.minimize logs - of length <= 50 occurs, each with
+    # the parameter order under which it was observed
+    nc = len(_corpus())
+    for i in range(0, nc, 12):
+        out.append(dict(corpus=[i, min(i + 12, nc)], backend='cudd'))
     return out
+
+
+_CORPUS = None
+
+
+def _corpus():
+    global _CORPUS
+    if _CORPUS is None:
+        import json
+        import os
+        p = os.path.join(os.path.dirname(os.path.dirname(
+            os.path.abspath(__file__))), 'data', 'c09_bnb_corpus.json')
+        _CORPUS = json.load(open(p))
+    return _CORPUS
 
 
 def _large_masks(grid, lo, hi, seed):
@@ -98,6 +120,12 @@ EXTRA = [
 def cases(shard):
     if shard.get('extra'):
         yield from EXTRA
+        return
+    if 'corpus' in shard:
+        for shape, g, m, order in _corpus()[slice(*shard['corpus'])]:
+            full = (1 << len(cv.space_of(g))) - 1
+            yield dict(grid=g, f=m, care=full, care_name='TRUE',
+                       backend=shard['backend'], order=order, shape=shape)
         return
     g = shard['grid']
     if 'spread' in shard:
@@ -153,10 +181,58 @@ def run_case(case, acc):
         case['grid'], case['f'], case['care'])
     if case['grid'] in ('b5', 'g444'):
         acc.count('sampled_instances_beyond_the_exhaustive_scope')
-    cover = cov.minimize(f, care, ctx)
+    if 'shape' in case:
+        with _ShapeLog() as sl:
+            cover = cov.minimize(f, care, ctx)
+        # coverage information only (a different but correct search order
+        # is no violation)
+        acc.count('corpus_search_shape_as_recorded'
+                  if sl.shape() == case['shape'] else
+                  'corpus_search_shape_differs')
+        acc.add_to_set('corpus_search_shapes', sl.shape())
+    else:
+        cover = cov.minimize(f, care, ctx)
     got = cv.read_cover(ctx, cover, dn)
     acc.ev(dict(c=case), nontrivial=(k or 0) >= 2)
     check_cover(got, dn, primes, k, covers, Fp, case, acc, 'C09')
+
+
+class _ShapeLog:
+    """Record the shape of the branch-and-bound search from the INFO
+    messages of `omega.symbolic.cover` (public logging seam)."""
+
+    TOK = [('---- traverse ----', 'T'), ('terminal case', 't'),
+           ('prune both', 'X'), ('prune', 'p'), ('both branches pruned', 'x'),
+           ('---- branch ----', 'B'), ('left branch', 'L'),
+           ('right branch', 'R')]
+
+    def __enter__(self):
+        import logging
+        self.tok = []
+        outer = self
+
+        class H(logging.Handler):
+            def emit(self, rec):
+                m = rec.getMessage().strip()
+                for pre, t in outer.TOK:
+                    if m.startswith(pre):
+                        outer.tok.append(t)
+                        break
+        self.h = H()
+        self.lg = logging.getLogger('omega.symbolic.cover')
+        self.old = (self.lg.level, self.lg.propagate)
+        self.lg.setLevel(logging.INFO)
+        self.lg.propagate = False
+        self.lg.addHandler(self.h)
+        return self
+
+    def __exit__(self, *a):
+        self.lg.removeHandler(self.h)
+        self.lg.setLevel(self.old[0])
+        self.lg.propagate = self.old[1]
+
+    def shape(self):
+        return ''.join(self.tok)
 
 
 def check_cover(got, dn, primes, k, covers, Fp, case, acc, pid):
